@@ -730,7 +730,7 @@ impl Drop for ObjectHandle {
 
           dealloc(
             self.ptr.as_ptr(),
-            make_array_layout::<ObjHeader, Value>(len),
+            make_array_layout::<ObjHeader, u8>(len),
           );
         },
         ObjectKind::Tuple => {
